@@ -377,10 +377,10 @@ def r6_project_graph_roots(ctx, rep):
 
 
 RULES = [
-    RuleSpec("C13.R6", r6_project_graph_roots, "project-wide graph roots; file dependencies use the recursive closure", floor=12),
-    RuleSpec("C13.R1", r1_pairing, "forward/inverse adjacency pairing at node creation", floor=30),
-    RuleSpec("C13.R2", r2_mirror, "mirror graph classes iterate mirror relations", floor=16),
-    RuleSpec("C13.R3", r3_edges, "edge endpoints are nodes of the same hop; edges unconditional", floor=20),
-    RuleSpec("C13.R4", r4_optout, "graph opt-out, per-entity creation and limits", floor=12),
-    RuleSpec("C13.R5", r5_sorted_emission, "sorted iteration wherever nodes/edges are emitted", floor=18),
+    RuleSpec("C13.R6", r6_project_graph_roots, "project-wide graph roots; file dependencies use the recursive closure", floor=8),
+    RuleSpec("C13.R1", r1_pairing, "forward/inverse adjacency pairing at node creation", floor=20),
+    RuleSpec("C13.R2", r2_mirror, "mirror graph classes iterate mirror relations", floor=9),
+    RuleSpec("C13.R3", r3_edges, "edge endpoints are nodes of the same hop; edges unconditional", floor=12),
+    RuleSpec("C13.R4", r4_optout, "graph opt-out, per-entity creation and limits", floor=8),
+    RuleSpec("C13.R5", r5_sorted_emission, "sorted iteration wherever nodes/edges are emitted", floor=10),
 ]
